@@ -16,6 +16,7 @@
 -/
 import Pk.Props.C06ReachSpec
 import Pk.Proofs.MgrTruthEvF
+import Pk.Proofs.MgrTruthEvG
 import Pk.Proofs.MgrTruthExample
 import Pk.Proofs.MgrTruthCex
 import Pk.Proofs.MgrTruthCex2
@@ -101,8 +102,21 @@ private theorem core_step (s : St) (e : Ev) (st : Started) (T T' g : Truth) (hg 
     exact wrap (good_sameOn s _ st T T' g hg (fun _ h => h)
       (Pk.Proofs.MgrReach.step_all_next_other s _ st (fun p u c a b d h => by cases h)).2 ht)
   | updConv name convs =>
-    exact wrap (good_sameOn s _ st T T' g hg (fun _ h => h)
-      (Pk.Proofs.MgrReach.step_all_next_other s _ st (fun p u c a b d h => by cases h)).2 ht)
+    have hok' := res_ok_updConv s name convs st herr
+    by_cases hd : DropsOutput s (.updConv name convs) ∧ ∃ n t, sget s.tags n = some t ∧ Payload t
+    · refine wrap (good_dropped s _ st T T' g hg (Or.inl ⟨name, convs, rfl⟩) hok' hd.1 hd.2 ?_)
+      intro n t _ hn id hid hT
+      exact ht.2 hd.1 n t hn id hid hT
+    · have hsame : SameOn s T T' := by
+        by_cases hd1 : DropsOutput s (.updConv name convs)
+        · intro n t hn id hid
+          apply Classical.byContradiction
+          intro hT
+          obtain ⟨n0, _, t0, h0, hp0⟩ := (ht.2 hd1 n t hn id hid hT).nonempty
+          exact hd ⟨hd1, n0, t0, h0, hp0⟩
+        · exact ht.1 hd1
+      exact wrap (good_sameOn s _ st T T' g hg (fun _ h => h)
+        (Pk.Proofs.MgrReach.step_all_next_other s _ st (fun p u c a b d h => by cases h)).2 hsame)
   | importDone p u c a b d =>
     cases hji : s.jImport with
     | none =>
@@ -176,7 +190,19 @@ private theorem core_step (s : St) (e : Ev) (st : Started) (T T' g : Truth) (hg 
       exact wrap (good_markDel s name ids st T T' g hg hok' hne t hst (ht t hst).1 (ht t hst).2 hjt)
   | delTag name =>
     have hok' := res_ok_delTag s name st herr
-    exact wrap (good_delTag s name st T T' g hg hok' ht)
+    by_cases hd : DropsOutput s (.delTag name) ∧ ∃ n t, sget s.tags n = some t ∧ Payload t
+    · refine wrap (good_dropped s _ st T T' g hg (Or.inr ⟨name, rfl⟩) hok' hd.1 hd.2 ?_)
+      intro n t hE hn id hid hT
+      exact ht.2 hd.1 n t (fun h => hE h.symm) hn id hid hT
+    · have hsame : ∀ n, n ≠ name → SameAt s T T' n := by
+        by_cases hd1 : DropsOutput s (.delTag name)
+        · intro n hne t hn id hid
+          apply Classical.byContradiction
+          intro hT
+          obtain ⟨n0, _, t0, h0, hp0⟩ := (ht.2 hd1 n t hne hn id hid hT).nonempty
+          exact hd ⟨hd1, n0, t0, h0, hp0⟩
+        · exact ht.1 hd1
+      exact wrap (good_delTag s name st T T' g hg hok' hsame)
 
 /-- ONE EVENT: every event that satisfies the contracts preserves all invariants, in particular
     "decided ⇒ correct" and the ghost invariant of the tagging job in flight -/
@@ -192,13 +218,13 @@ theorem decided_correct_step (s : St) (e : Ev) (st : Started) (T T' g : Truth) (
   cases hj : s.jTag with
   | none =>
     simp only [Option.isNone_none, if_true]
-    exact jobInv_fresh s e st T' hg.reach hok.payload.2.1 hG' (Or.inl hj) hinv'
+    exact jobInv_fresh s e st T' hg.reach hok.payload.2.1 hg.gens hG' (Or.inl hj) hinv' hR'.nextLeAll
   | some j =>
     obtain ⟨jn, snap, held⟩ := j
     simp only [Option.isNone_some, Bool.false_eq_true, if_false]
     by_cases hd : ∃ n r, e = .tagDone n r
     · obtain ⟨n, r, rfl⟩ := hd
-      exact jobInv_fresh s _ st T' hg.reach hok.payload.2.1 hG' (Or.inr ⟨n, r, rfl⟩) hinv'
+      exact jobInv_fresh s _ st T' hg.reach hok.payload.2.1 hg.gens hG' (Or.inr ⟨n, r, rfl⟩) hinv' hR'.nextLeAll
     · have hne : ∀ n r, e ≠ .tagDone n r := fun n r h => hd ⟨n, r, h⟩
       have := hjob' hne jn snap held hj
       cases e with
